@@ -182,7 +182,8 @@ def step (s : St) (t : List String) : St × String :=
   | ["raw", k, h] =>
     match pPattern k true, pHex h with
     | some pat, some bs =>
-      let evs := chunkEvents ((bs.length + 1) * (pat.length + 2)) pat pat bs []
+      let evs := if pat.all (· == 0) then bs.map Ev.byte
+                 else chunkEvents ((bs.length + 1) * (pat.length + 2)) pat pat bs []
       let r := (mkRecv s.pr s.rd).run (evs ++ [.eof])
       (s, s!"st={stStr r} d={delivStr r.delivered}")
     | _, _ => bad
